@@ -381,8 +381,8 @@ impl Prop for C15 {
     }
     fn cases(&self, tier: Tier) -> u32 {
         match tier {
-            Tier::Quick => 2500,
-            Tier::Thorough => 40000,
+            Tier::Quick => 8000,
+            Tier::Thorough => 200000,
         }
     }
     fn check(&self, c: &Case, _lenient: bool) -> CaseResult {
